@@ -5,6 +5,7 @@
 package c08
 
 import (
+	"bytes"
 	"bufio"
 	"context"
 	"encoding/binary"
@@ -54,7 +55,8 @@ func tokBytes(t uint64) message.Token {
 }
 
 type world struct {
-	conMID map[uint64]int32 // token -> message ID of a confirmable registration request that was not acknowledged yet
+	conMID   map[uint64]int32 // token -> message ID of a confirmable registration request that was not acknowledged yet
+	deregMID map[uint64]int32 // token -> message ID of the deregistration request Cancel wrote
 	mu      sync.Mutex
 	events  []string
 	udp     *udpclient.Conn
@@ -107,20 +109,17 @@ func (w *world) inject(tok uint64, code codes.Code, seq string, tag string) {
 	}
 	m.SetContentFormat(message.TextPlain)
 	m.SetBody(strings.NewReader(tag))
+	if len(tag) > 0 && tag[0]%2 == 0 {
+		// every other message carries an ETag of varying length (the observation remembers the latest one for its
+		// deregistration request)
+		m.SetOptionBytes(message.ETag, bytes.Repeat([]byte{tag[0]}, 1+int(tag[0])%8))
+	}
 	if w.udp != nil {
 		w.mid++
 		m.SetMessageID(w.mid)
 		m.SetType(message.NonConfirmable)
 		// the answer to a confirmable registration request that is still unacknowledged is piggybacked on its ACK
-		for _, d := range w.us.TakeSent() {
-			q := pool.NewMessage(context.Background())
-			if _, err := q.UnmarshalWithDecoder(udpcoder.DefaultCoder, d.Data); err == nil && q.Type() == message.Confirmable && q.Code() == codes.GET {
-				if w.conMID == nil {
-					w.conMID = map[uint64]int32{}
-				}
-				w.conMID[binary.BigEndian.Uint64(append(make([]byte, 8-len(q.Token())), q.Token()...))] = q.MessageID()
-			}
-		}
+		w.scanSent()
 		if id, ok := w.conMID[tok]; ok {
 			delete(w.conMID, tok)
 			m.SetType(message.Acknowledgement)
@@ -139,6 +138,61 @@ func (w *world) inject(tok uint64, code codes.Code, seq string, tag string) {
 	if err != nil {
 		panic(err)
 	}
+	_ = w.tp.Write(append([]byte(nil), b...))
+}
+
+// scanSent drains what the datagram connection wrote and remembers the message IDs of confirmable registration requests
+// that are not acknowledged yet (conMID) and of deregistration requests (deregMID), by token.
+func (w *world) scanSent() {
+	if w.conMID == nil {
+		w.conMID = map[uint64]int32{}
+		w.deregMID = map[uint64]int32{}
+	}
+	for _, d := range w.us.TakeSent() {
+		q := pool.NewMessage(context.Background())
+		if _, err := q.UnmarshalWithDecoder(udpcoder.DefaultCoder, d.Data); err != nil || q.Code() != codes.GET {
+			continue
+		}
+		t := binary.BigEndian.Uint64(append(make([]byte, 8-len(q.Token())), q.Token()...))
+		if v, err := q.Observe(); err == nil && v == 1 {
+			w.deregMID[t] = q.MessageID()
+		} else if q.Type() == message.Confirmable {
+			w.conMID[t] = q.MessageID()
+		}
+	}
+}
+
+// answerDeregistration answers the GET with Observe=1 that Observation.Cancel has just written for token tok.
+func (w *world) answerDeregistration(tok uint64) {
+	m := pool.NewMessage(context.Background())
+	m.SetCode(codes.Content)
+	m.SetToken(tokBytes(tok))
+	if w.udp != nil {
+		w.scanSent()
+		mid, ok := w.deregMID[tok]
+		if !ok {
+			return
+		}
+		delete(w.deregMID, tok)
+		m.SetType(message.Acknowledgement)
+		m.SetMessageID(mid)
+		b, _ := m.MarshalWithEncoder(udpcoder.DefaultCoder)
+		_ = w.udp.Process(nil, append([]byte(nil), b...))
+		return
+	}
+	asked := false
+	for _, fr := range w.tp.TakeFrames() {
+		q := pool.NewMessage(context.Background())
+		if _, err := q.UnmarshalWithDecoder(tcpcoder.DefaultCoder, fr); err == nil && q.Code() == codes.GET && bytes.Equal(q.Token(), tokBytes(tok)) {
+			if v, err := q.Observe(); err == nil && v == 1 {
+				asked = true
+			}
+		}
+	}
+	if !asked {
+		return // Cancel sent nothing (the observation was already gone): an answer would be an unsolicited message
+	}
+	b, _ := m.MarshalWithEncoder(tcpcoder.DefaultCoder)
 	_ = w.tp.Write(append([]byte(nil), b...))
 }
 
@@ -233,14 +287,25 @@ func runCase(t *testing.T, transport string, ops [][]string) []string {
 					id, _ := strconv.Atoi(f[2])
 					if id < len(w.regs) && w.regs[id].obs != nil {
 						r := w.regs[id]
+						if w.udp != nil {
+							w.scanSent()
+							delete(w.deregMID, r.tok) // only a deregistration request written from now on is answered
+						} else {
+							w.tp.TakeFrames()
+						}
 						ctx, cancel := context.WithTimeout(context.Background(), time.Millisecond)
 						go func() {
-							// the deregistration request is not answered by this harness: Cancel returns by its context
+							// the deregistration request of every other registration is answered (2.05 without Observe); the
+							// others are left unanswered: Cancel returns by its context
 							_ = r.obs.Cancel(ctx)
 							cancel()
 							w.log(fmt.Sprintf("cancelreturned %d", id))
 						}()
 						synctest.Wait()
+						if id%2 == 1 {
+							w.answerDeregistration(r.tok)
+							synctest.Wait()
+						}
 						time.Sleep(2 * time.Millisecond)
 					}
 				}
